@@ -266,7 +266,7 @@ fn write_workspace(dir: &Path, progs: &[E], ncrates: usize) -> std::io::Result<V
         std::fs::create_dir_all(cdir.join("src"))?;
         std::fs::write(
             cdir.join("Cargo.toml"),
-            format!("[package]\nname = \"{name}\"\nversion = \"0.1.0\"\nedition = \"2021\"\n\n[dependencies]\njson-syntax = {{ path = \"/repo\" }}\n"),
+            format!("[package]\nname = \"{name}\"\nversion = \"0.1.0\"\nedition = \"2021\"\n\n[dependencies]\njson-syntax = {{ path = \"{}\" }}\n", repo()),
         )?;
         // line 1..HEADER are the header; program i (global index lo + j) is on line HEADER + 1 + j
         let mut src = String::new();
@@ -282,11 +282,15 @@ fn write_workspace(dir: &Path, progs: &[E], ncrates: usize) -> std::io::Result<V
         std::fs::write(cdir.join("src/main.rs"), src)?;
     }
     std::fs::write(dir.join("Cargo.toml"), format!("[workspace]\nresolver = \"2\"\nmembers = [{}]\n\n[profile.dev]\ndebug = false\nopt-level = 0\nincremental = false\n", members.join(", ")))?;
-    let _ = std::fs::copy("/repo/Cargo.lock", dir.join("Cargo.lock"));
+    let _ = std::fs::copy(format!("{}/Cargo.lock", repo()), dir.join("Cargo.lock"));
     Ok(ranges)
 }
 
 const HEADER_LINES: usize = 6;
+
+fn repo() -> String {
+    std::env::var("VERIF_REPO").unwrap_or_else(|_| "/repo".into())
+}
 
 fn gen_target() -> String {
     format!("{}/gen", std::env::var("VERIF_TARGET").unwrap_or_else(|_| "/verif/.target".into()))
@@ -437,13 +441,13 @@ fn main() {
         let _ = std::fs::remove_dir_all(&dir);
         std::fs::create_dir_all(dir.join("m00/src")).unwrap();
         std::fs::write(dir.join("Cargo.toml"), "[workspace]\nresolver = \"2\"\nmembers = [\"m00\"]\n").unwrap();
-        std::fs::write(dir.join("m00/Cargo.toml"), "[package]\nname = \"m00\"\nversion = \"0.1.0\"\nedition = \"2021\"\n\n[dependencies]\njson-syntax = { path = \"/repo\" }\n").unwrap();
+        std::fs::write(dir.join("m00/Cargo.toml"), format!("[package]\nname = \"m00\"\nversion = \"0.1.0\"\nedition = \"2021\"\n\n[dependencies]\njson-syntax = {{ path = \"{}\" }}\n", repo())).unwrap();
         std::fs::write(
             dir.join("m00/src/main.rs"),
             format!("#![recursion_limit = \"512\"]\n#![allow(unused)]\nuse json_syntax::{{json, object::Key, Parse, Value}};\nfn main() {{\n    let KA: Key = Key::from(\"a\"); let KB: Key = Key::from(\"b\");\n    let v = {rust};\n    let w = Value::parse_str({text:?}).unwrap().0;\n    if v != w {{ println!(\"macro built {{}} but the text parses to {{}}\", v, w); std::process::exit(1); }}\n}}\n"),
         )
         .unwrap();
-        let _ = std::fs::copy("/repo/Cargo.lock", dir.join("Cargo.lock"));
+        let _ = std::fs::copy(format!("{}/Cargo.lock", repo()), dir.join("Cargo.lock"));
         let o = cargo(&dir, &["run", "--offline", "-q"]);
         if o.status.success() {
             println!("replay: the case passes on the current tree");
